@@ -510,8 +510,19 @@ class Check:
         return r
 
     # -- conformance -------------------------------------------------------------------
-    def trace(self, name, module, cfg, path, what="", boundary=None, nchunks=None, env=None, timeout=1700, balance=False):
+    def trace(self, name, module, cfg, path, what="", boundary=None, nchunks=None, env=None, timeout=1700, balance=False, drift=False):
+        """drift=True: the trace spec compares the code with an implementation-shaped (R2) model on something the API does not
+        promise (coordinates, orders); a rejection is reported as MODEL-DRIFT in the evidence and never fails the check."""
         tr = validate_trace(module, cfg, path, nchunks=nchunks, boundary=boundary, env=env, timeout=timeout, balance=balance)
+        if drift:
+            self.ev.add_trace(name, tr, sample_from=path, what=what + " [conformance with an R2 model: rejections are MODEL-DRIFT, not violations]")
+            log("  [drift] %-22s %-18s events=%d chunks=%d divergences=%d  %.1fs" % (name, module, tr.events, tr.traces, len(tr.rejections), tr.wall))
+            for rj in tr.rejections[:5]:
+                msg = "MODEL-DRIFT %s/%s: the code diverges from the model at %s" % (name, module, json.dumps(rj["event"])[:600])
+                log(msg)
+                self.ev.notes.append(msg)
+            self.ev.extra.setdefault("model_drift", {})[name] = len(tr.rejections)
+            return tr
         self.ev.add_trace(name, tr, sample_from=path, what=what)
         log("  [trace] %-22s %-18s events=%d chunks=%d rejections=%d  %.1fs" %
             (name, module, tr.events, tr.traces, len(tr.rejections), tr.wall))
